@@ -25,7 +25,7 @@ Theorem c17_version_roundtrip_iso : forall p1,
 Proof. exact version_iso_le65536. Qed.
 
 (** what the code does with the other ISO-strict version frames (Le announcing 1..65535 bytes):
-    SW_WRONG_LENGTH.  Stated so that the behaviour is visible; see the report in DESIGN/evidence. *)
+    SW_WRONG_LENGTH.  Stated so that the behaviour is visible (also recorded in the evidence file). *)
 Theorem c17_version_iso_short_le_is_rejected : forall p1 ne, 1 <= ne <= 65535 ->
   request_try_from (encode_request_iso (version_request p1) (Some ne)) = Err WrongLength.
 Proof. exact version_iso_short_le_rejected. Qed.
@@ -103,7 +103,7 @@ Proof. exact request_try_from_val. Qed.
 Theorem c17_parser_cost : forall value,
   Forall (fun n => (n + 72 <= length value)%nat) (request_allocs value) /\
   (length (request_allocs value) <= 1)%nat.
-Proof. exact (fun v => conj (request_allocs_bounded v) (request_allocs_at_most_one v)). Qed.
+Proof. exact request_try_from_cost. Qed.
 
 (** the payload parsers called directly: register never panics; authenticate does not panic for
     the control bytes of the specification ... *)
@@ -112,7 +112,7 @@ Proof. exact register_request_no_panic. Qed.
 
 Theorem c17_authenticate_parser_total_on_control_bytes : forall data p1,
   p1 = 3 \/ p1 = 7 \/ p1 = 8 -> authentication_request_try_from data p1 <> Panic.
-Proof. exact (fun data p1 H => authentication_request_no_panic data p1 (proj2 (control_byte_cases p1) H)). Qed.
+Proof. exact authentication_request_no_panic_378. Qed.
 
 (** ... and panics exactly on a correctly laid out payload with any other parameter byte: the
     known finding (public infallible [From<u8> for AuthenticationParameter], [unreachable!]) *)
